@@ -165,6 +165,8 @@ class LoopMixin:
                     vv = self.symdict_val(ref, run.rec(ref.oid), kt)
                     return vv if tag == "#dictvalues" else VTuple([kv, vv])
                 return n, elem
+        if isinstance(it, VStr):
+            return z3.Length(it.t), (lambda k: VStr(z3.SubString(it.t, k, 1)))
         if isinstance(it, VTuple):
             items = list(it.items)
             return z3.IntVal(len(items)), (lambda k: items[run.choose([(str(j), k == j) for j in range(len(items))], "loop index")])
